@@ -313,7 +313,9 @@ def execute(prop, pid, binpath, ops_path, workdir, tag, timeout=3600):
     # descriptor, a panic inside a destructor during unwinding, a stack overflow …) and no watchdog verdict explains it:
     # the case it was executing is a failing input — it is recovered from the input (the report is flushed at every
     # `case` line) and replayed / shrunk like any other oracle failure
-    if rc < 0 and not os.path.exists(wd) and not any(x["prop"] == pid for x in t3):
+    # … or it ended with Rust's panic exit code 101 (a panic of the code under test on a thread / at a point where the
+    # harness cannot catch it: the accept loop stepped outside `catch`, a panic while panicking)
+    if (rc < 0 or rc == 101) and not os.path.exists(wd) and not any(x["prop"] == pid for x in t3):
         in_cases, cur = [], None
         with open(ops_path, errors="replace") as f:
             for line in f:
@@ -335,7 +337,7 @@ def execute(prop, pid, binpath, ops_path, workdir, tag, timeout=3600):
             with open(probe, "w") as f:
                 f.write("\n".join(in_cases[i]["ops"]) + "\n")
             prc, _, _ = run_real(binpath, pid, probe, os.path.join(workdir, tag + ".probe.real"), min(timeout, 600))
-            if prc < 0:
+            if prc < 0 or prc == 101:
                 k = i
                 break
         if k is None and cands:
@@ -347,7 +349,8 @@ def execute(prop, pid, binpath, ops_path, workdir, tag, timeout=3600):
             cases.append({"name": hit["name"], "ops": hit["ops"], "real": hit["real"]})
             last = [l for l in out.strip().splitlines() if l.strip()][-1:] or [""]
             t3.append({"prop": pid, "case": hit["name"], "case_index": len(cases) - 1,
-                       "msg": "the process running the real code was killed by signal %d while executing this case: %s" % (-rc, last[0][:200])})
+                       "msg": ("the process running the real code was killed by signal %d while executing this case: %s" % (-rc, last[0][:200])) if rc < 0
+                              else ("the process running the real code panicked (exit code 101) while executing this case: %s" % " | ".join(l.strip() for l in out.strip().splitlines() if "panicked at" in l or l.strip().startswith("attempt to") or "overflow" in l)[:300] or last[0][:200])})
     res["cases"], res["notes"] = cases, notes
     res["t3"] = [x for x in t3 if x["prop"] == pid]
     res["t3_other"] = [x for x in t3 if x["prop"] != pid]
